@@ -3,6 +3,7 @@
 // (32-bit row indices).  Everything below is proved, nothing is assumed.
 
 /// slot counts that are powers of two (the standard: "the number of slots S = 2^k")
+#[verifier::opaque]
 pub open spec fn is_pow2_u32(s: u32) -> bool {
     s == 0x1 || s == 0x2 || s == 0x4 || s == 0x8 || s == 0x10 || s == 0x20 || s == 0x40 || s == 0x80
     || s == 0x100 || s == 0x200 || s == 0x400 || s == 0x800 || s == 0x1000 || s == 0x2000 || s == 0x4000 || s == 0x8000
@@ -143,6 +144,7 @@ pub proof fn lemma_search_is_scan(ids: Seq<nat>, rows: Seq<nat>, id: u64)
 pub proof fn lemma_pow2_mask_test(s: u32)
     ensures s != 0 && s & sub(s, 1) == 0 <==> is_pow2_u32(s)
 {
+    reveal(is_pow2_u32);
     assert(s != 0 && s & sub(s, 1) == 0 <==> (s == 0x1 || s == 0x2 || s == 0x4 || s == 0x8 || s == 0x10 || s == 0x20 || s == 0x40 || s == 0x80
     || s == 0x100 || s == 0x200 || s == 0x400 || s == 0x800 || s == 0x1000 || s == 0x2000 || s == 0x4000 || s == 0x8000
     || s == 0x1_0000 || s == 0x2_0000 || s == 0x4_0000 || s == 0x8_0000 || s == 0x10_0000 || s == 0x20_0000 || s == 0x40_0000 || s == 0x80_0000
@@ -158,4 +160,18 @@ pub proof fn lemma_mask_is_mod(x: u64, s: u32)
     let s64 = s as u64;
     assert(s64 != 0 && s64 & sub(s64, 1) == 0) by (bit_vector) requires s != 0 && s & sub(s, 1) == 0, s64 == s as u64;
     assert(x & sub(s64, 1) == x % s64) by (bit_vector) requires s64 != 0 && s64 & sub(s64, 1) == 0;
+}
+
+/// ((S >> 32) & M) | 1 is the standard's H'
+pub proof fn lemma_stride(id: u64, s: u32)
+    requires is_pow2_u32(s)
+    ensures
+        (((id >> 32) & ((s - 1) as u64)) | 1) as int == probe_stride(id, s as int),
+        (((id >> 32) & ((s - 1) as u64)) | 1) <= s,
+{
+    lemma_mask_is_mod(id >> 32, s);
+    let h = (id >> 32) & ((s - 1) as u64);
+    assert(id >> 32 == id / 0x1_0000_0000) by (bit_vector);
+    assert((h | 1) == if h % 2 == 0 { add(h, 1) } else { h }) by (bit_vector);
+    assert(h < 0x1_0000_0000);
 }
